@@ -87,28 +87,35 @@ def scalingSetup (s : Srv) (c : Client) (w h : Nat) : Srv :=
     let s4 := bump s3 w h 1
     { s4 with clients := setClient s4.clients c.id fun c => { c with sw := w, sh := h, pending := true } }
 
+/-- rfbClientConnectionGone for client `c` (id `id`): its screen loses a reference -/
+def removeClient (s : Srv) (c : Client) (id : Nat) : Srv :=
+  let s1 := bump s c.sw c.sh (-1)
+  { s1 with clients := s1.clients.filter (·.id != id) }
+
+/-- rfbNewClient: `cl->scaledScreen = screen; screen->scaledScreenRefCount++` -/
+def addClient (s : Srv) (id : Nat) (nfs : Bool) : Srv :=
+  let s1 := bump s s.main.w s.main.h 1
+  { s1 with clients := s1.clients ++ [{ id := id, sw := s.main.w, sh := s.main.h, nfs := nfs }] }
+
+/-- `cl->PalmVNC = TRUE` is set before the message is even read -/
+def setPalm (s : Srv) (id : Nat) (palm : Bool) : Srv :=
+  if palm then { s with clients := setClient s.clients id fun c => { c with palm := true } } else s
+
+/-- the rfbSetScale / rfbPalmVNCSetScaleFactor case after the variant flag has been set -/
+def setScaleCore (s0 : Srv) (id n : Nat) : Srv :=
+  match s0.clients.find? (·.id == id) with
+  | none => s0
+  | some c =>
+    if n = 0 then removeClient s0 c id      -- refused: rfbCloseClient, the client is reaped
+    else scalingSetup s0 c (s0.main.w / n) (s0.main.h / n)
+
 def step (s : Srv) : Op → Srv
-  | .join id nfs =>
-    if s.clients.any (·.id == id) then s else
-    let s1 := bump s s.main.w s.main.h 1
-    { s1 with clients := s1.clients ++ [{ id := id, sw := s.main.w, sh := s.main.h, nfs := nfs }] }
-  | .setScale id palm n =>
-    match s.clients.find? (·.id == id) with
-    | none => s
-    | some c =>
-      if n = 0 then
-        -- scale 0 is refused: rfbCloseClient, the client is reaped (rfbClientConnectionGone)
-        let s1 := bump s c.sw c.sh (-1)
-        { s1 with clients := s1.clients.filter (·.id != id) }
-      else
-        let s0 := if palm then { s with clients := setClient s.clients id fun c => { c with palm := true } } else s
-        scalingSetup s0 c (s.main.w / n) (s.main.h / n)
+  | .join id nfs => if s.clients.any (·.id == id) then s else addClient s id nfs
+  | .setScale id palm n => setScaleCore (setPalm s id palm) id n
   | .leave id =>
     match s.clients.find? (·.id == id) with
     | none => s
-    | some c =>
-      let s1 := bump s c.sw c.sh (-1)
-      { s1 with clients := s1.clients.filter (·.id != id) }
+    | some c => removeClient s c id
   | .modify r =>
     -- rfbScaledScreenUpdate: every scaled copy with active clients is refreshed on the rectangle
     { s with chain := s.chain.map fun p =>
